@@ -254,9 +254,6 @@ impl FeoxStore {
     #[verifier::external_body]
     pub fn note_ttl_transition(&self, old: u64, new: u64) { unimplemented!() }
 
-    // post-scan pass over the rebuilt index; appends the extents of expired winners
-    #[verifier::external_body]
-    pub fn remove_expired_recovery_winners(&self, now: u64, format: &FormatAny, retired_extents: &mut Vec<(u64, usize)>) -> Result<()> { unimplemented!() }
 }
 
 // ---- small std shims
